@@ -44,6 +44,10 @@ func c19Sizes(r *vf.Rand) int {
 		if r.Chance(1, 6) {
 			return 65536
 		}
+		if r.Chance(1, 8) {
+			// an item that makes the buffers grow well past their usual size, with ordinary items behind it
+			return []int{150 << 10, 300 << 10, 1<<20 + 17}[r.Intn(3)]
+		}
 		return 600
 	default:
 		return r.Intn(600)
